@@ -74,7 +74,7 @@ Fixpoint nodupb (l : list pval) : bool :=
 
 (* ------------------------------------------------------------------ cartesian product, mixed radix *)
 
-(* itertools.product(*ls) / MultiIndex.from_product: row-major, the LAST list varies fastest *)
+(* itertools.product( *ls ) / MultiIndex.from_product: row-major, the LAST list varies fastest *)
 Fixpoint cart {A} (ls : list (list A)) : list (list A) :=
   match ls with
   | [] => [[]]
@@ -149,7 +149,7 @@ Fixpoint seq_sequential_from {A} (k : nat) (defaults : list A) (vs : list (list 
   end.
 Definition seq_sequential {A} (defaults : list A) (vs : list (list A)) := seq_sequential_from 0 defaults vs.
 
-(* dask path, SequentialMode.create_params: list(zip(*values)) -- Python's zip: truncates to the
+(* dask path, SequentialMode.create_params: list(zip( *values )) -- Python's zip: truncates to the
    shortest list; every run sets ALL parameters *)
 Fixpoint zipn {A} (ls : list (list A)) : list (list A) :=
   match ls with
